@@ -184,9 +184,21 @@ func mkHello(r *core.Rng) hello {
 	}
 	if h.SNI != "" {
 		n := []byte(h.SNI)
-		b := append(u16(len(n)+3), 0)
-		b = append(b, u16(len(n))...)
-		b = append(b, n...)
+		entry := append([]byte{0}, u16(len(n))...)
+		entry = append(entry, n...)
+		list := entry
+		if r.Chance(1, 5) {
+			// RFC 6066: the list may hold names of other types, which a server skips; the host name need
+			// not come first
+			other := append([]byte{byte(r.PickI([]int{1, 7, 255}))}, u16(6)...)
+			other = append(other, "opaque"...)
+			if r.Bool() {
+				list = append(other, entry...)
+			} else {
+				list = append(append([]byte(nil), entry...), other...)
+			}
+		}
+		b := append(u16(len(list)), list...)
 		at := r.Intn(len(h.Exts) + 1)
 		h.Exts = append(h.Exts[:at:at], append([]ext{{0, b}}, h.Exts[at:]...)...)
 	}
